@@ -25,8 +25,31 @@ ASSUMPTIONS = ["malloc/realloc/free succeed and behave as allocate-copy-release 
                "String copy/assignment/comparison behave as value semantics on byte strings (C03)"]
 TECHNIQUE = ("Lean 4 theorems (block-level refinement of the cell-level member functions, heap-level simulation to shared "
              "sequences, lifecycle invariant) + differential correspondence check under ASan/LSan with an independent python oracle")
-LEVEL_TEXT = "see LEVEL_NOTE"
-LEVEL_NOTE = "see plugin"
+LEVEL_TEXT = ("Proved in Lean 4 about the executable model the driver runs (AslModel/Array.lean: every member of Array written as the "
+              "code's sequence of placement-construct / destroy / memmove / malloc-or-realloc steps on raw cells, blocks with header "
+              "n/s/rc, handles as block ids, relocation on growth): (1) layerB_refines / layerB_self_reference - for every block, "
+              "capacity and in-range argument each member (reserve on both allocation paths, resize, insert incl. an element of the "
+              "same array, remove, removeIf, append incl. append(a), copy) touches only constructed cells inside the block, "
+              "constructs and destroys each element exactly once (explicit live counter) and computes the list function of the "
+              "reference semantics; (2) array_refines_seq_partial - for EVERY finite history of the 36 protocol operations through six "
+              "handles and clones in which no operation increases the capacity of a block whose rc > 1, every call result and every "
+              "handle's (elements, rc()) equal the reference semantics 'handles -> shared sequences' and no access leaves live storage "
+              "(simulation with block-id renaming, rc = number of handles, no dangling handle); (3) lifecycle - in every such "
+              "reachable state live objects = total length of live blocks, and with the last handle gone no block and no object "
+              "remains; (4) array_full_counterexample - without the hypothesis the statement is false (a=[]; b=a; a<<0<<1<<2<<3). "
+              "The model is tied to the current source on every run by the correspondence check (real Array/Stack/Queue of int, String "
+              "and a counted heap-payload type under ASan/LSan, all six handles compared after every operation) and an independent "
+              "python reference.")
+LEVEL_NOTE = ("Partial: the refinement is stated under the decidable hypothesis AllSafe = 'no operation increases the capacity of a "
+              "block whose rc > 1' (known finding shared-growth; harness and model skip exactly those operations) and 'each sort call's "
+              "quicksort stays inside its sequence and within its fuel'; the sorted sequence of the reference semantics is defined by "
+              "the model's quicksort, so sortedness/permutation (quicksort_full) is NOT proved - only length preservation - and is "
+              "validated by K and the python sorted() oracle. Temporaries' rc++/rc-- pairs inside clone()/concat() are collapsed in the "
+              "model. Trusted: Lean kernel, harness, generator; malloc/realloc/memmove as allocate-copy-release and bitwise relocation; "
+              "the element types are trivially relocatable. The growth policy (3, 2s, max(2s,m)) is transcribed in the model and used "
+              "for the skip decisions: a harmless change of it is reported as VIOLATION ... no-failing-input-found. New cells of "
+              "Array<int> after resize are unspecified in C++; the harness writes them before reading. ASL_HAVE_MOVE is off in "
+              "this build: the (leaking) move assignment Array::operator=(Array&&) is not compiled and not covered.")
 
 # ---------------------------------------------------------------------------------------------- reference
 
@@ -75,8 +98,24 @@ class Ref:
         self.stats = {"reloc_malloc": 0, "reloc_realloc": 0, "skipped_shared_growth": 0, "maxlen": 0, "maxrc": 0,
                       "mid_insert": 0, "mid_remove": 0, "self_ref": 0, "caps": set()}
 
+    follow = None   # oracle mode: True/False = what the implementation answered for the guarded operation
+    abstain = False  # reference mode: no opinion once a capacity-dependent decision was needed
+    poisoned = False
+
     def rc(self, c):
         return sum(1 for x in self.H if x is c)
+
+    def blocked(self, would_grow, shared):
+        """is this growth-capable operation excluded (known finding shared-growth)?  In oracle mode the
+        implementation's own decision is followed (capacity policy is not part of the property), but only
+        where the exclusion can apply at all: the block must be shared."""
+        if self.abstain:
+            if shared:
+                self.poisoned = True
+            return would_grow and shared
+        if self.follow is None:
+            return would_grow and shared
+        return shared and self.follow
 
     # capacity bookkeeping
     def reserve(self, c, m):
@@ -204,13 +243,13 @@ class Ref:
             H[h] = None
             return "ok"
         if op in ("app", "push", "put"):
-            if n >= c.cap and shared:
+            if self.blocked(n >= c.cap, shared):
                 return "skipg"
             self.grow1(c)
             l.append(dec(T, a[1]))
             return "ok"
         if op == "ins":
-            if n >= c.cap and shared:
+            if self.blocked(n >= c.cap, shared):
                 return "skipg"
             self.grow1(c)
             k = int(a[1]) % (n + 1)
@@ -221,7 +260,7 @@ class Ref:
         if op == "appo":
             if n == 0:
                 return "ok"
-            if n >= c.cap and shared:
+            if self.blocked(n >= c.cap, shared):
                 return "skipg"
             self.grow1(c)
             self.stats["self_ref"] += 1
@@ -230,7 +269,7 @@ class Ref:
         if op == "inso":
             if n == 0:
                 return "ok"
-            if n >= c.cap and shared:
+            if self.blocked(n >= c.cap, shared):
                 return "skipg"
             self.grow1(c)
             self.stats["self_ref"] += 1
@@ -243,7 +282,7 @@ class Ref:
             g = sl(a[2])
             if H[g] is None or len(H[g].l) == 0:
                 return "skip"
-            if n >= c.cap and shared:
+            if self.blocked(n >= c.cap, shared):
                 return "skipg"
             self.grow1(c)
             if H[g] is c:
@@ -276,7 +315,7 @@ class Ref:
             return "ok"
         if op == "rsz":
             m = int(a[1])
-            if m > c.cap and shared:
+            if self.blocked(m > c.cap, shared):
                 return "skipg"
             self.reserve(c, m)
             if m < n:
@@ -286,7 +325,7 @@ class Ref:
             return "ok"
         if op == "res":
             m = int(a[1])
-            if m > c.cap and shared:
+            if self.blocked(m > c.cap, shared):
                 return "skipg"
             self.reserve(c, m)
             return "ok"
@@ -313,7 +352,7 @@ class Ref:
             if H[g] is None:
                 return "skip"
             nb = len(H[g].l)
-            if n + nb > c.cap and shared:
+            if self.blocked(n + nb > c.cap, shared):
                 return "skipg"
             self.reserve(c, n + nb)
             if H[g] is c:
@@ -325,7 +364,7 @@ class Ref:
             if H[g] is None:
                 return "skip"
             nb = len(H[g].l)
-            if nb > c.cap and shared:
+            if self.blocked(nb > c.cap, shared):
                 return "skipg"
             self.reserve(c, nb)
             if H[g] is c:
@@ -396,13 +435,17 @@ def reference(line):
     p = t[0]
     if t[1] == "reset":
         REFS[p] = Ref(p[0])
+        REFS[p].abstain = True
         return "ok"
-    if p not in REFS:
+    if p not in REFS or REFS[p].poisoned:
         return None
     try:
-        return REFS[p].do(t[1:])
+        r = REFS[p].do(t[1:])
     except Exception:
         return None
+    # whether an operation that may grow a shared block is skipped depends on the capacity policy, which is not
+    # part of the property: no opinion from there to the end of the case (the correspondence K still compares)
+    return None if REFS[p].poisoned else r
 
 
 # ---------------------------------------------------------------------------------------------- generator
@@ -427,15 +470,27 @@ BOUNDARY = {"i": [3, 6, 12, 24, 48, 96, 192, 384, 511, 512, 513, 768, 1024], "s"
             "c": [3, 6, 12, 24, 48, 96, 192, 255, 256, 257, 384, 512]}
 
 
-def gen_case(rng, t, cont, nops, profile):
-    """one history; the reference simulator supplies the current lengths so that arguments hit boundaries"""
+MAYGROW = ("app", "push", "put", "ins", "appo", "inso", "insx", "rsz", "res", "apnd", "copy")
+
+
+def gen_case(rng, t, cont, nops, profile, exclusive=False):
+    """one history; the reference simulator supplies the current lengths so that arguments hit boundaries.
+    exclusive: before an operation that may grow a block shared by several handles, the acting handle is made
+    independent with dup() — such histories never meet the shared-growth exclusion, whatever the growth policy,
+    so the python oracle has an opinion on every line."""
     p = t + cont
     ref = Ref(t)
     lines = [p + " reset"]
 
     def emit(s):
+        tk = s.split()
+        if exclusive and tk[0] in MAYGROW:
+            c = ref.H[int(tk[1]) % NS]
+            if c is not None and ref.rc(c) > 1:
+                lines.append(p + " dup " + tk[1])
+                ref.do(["dup", tk[1]], render=False)
         lines.append(p + " " + s)
-        ref.do(s.split(), render=False)
+        ref.do(tk, render=False)
 
     emit("new %d" % rng.randrange(NS))
     for _ in range(nops):
@@ -556,13 +611,13 @@ def gen(rng, tier):
     kinds = ["ia", "sa", "ca", "ca", "sa", "ik", "sk", "ck", "iq", "sq", "cq"]
     for i in range(nsmall):
         p = kinds[i % len(kinds)]
-        cases.append(gen_case(rng, p[0], p[1], rng.randrange(1, 40), "small"))
+        cases.append(gen_case(rng, p[0], p[1], rng.randrange(1, 40), "small", exclusive=(i % 2 == 0)))
     for i in range(nmed):
         p = kinds[i % len(kinds)]
-        cases.append(gen_case(rng, p[0], p[1], rng.randrange(40, 160), "small"))
+        cases.append(gen_case(rng, p[0], p[1], rng.randrange(40, 160), "small", exclusive=(i % 2 == 0)))
     for i in range(nlarge):
         p = kinds[i % len(kinds)]
-        cases.append(gen_case(rng, p[0], p[1], rng.randrange(60, 400), "large"))
+        cases.append(gen_case(rng, p[0], p[1], rng.randrange(60, 400), "large", exclusive=(i % 2 == 0)))
     cases += exhaustive_cases(3 if quick else 5, ["c"] if quick else ["c", "s"])
     return cases
 
@@ -618,3 +673,34 @@ def distribution(cases):
 KNOWN = [{"key": "shared-growth",
           "desc": "growing a block through one handle while another handle shares it leaves the other handle dangling",
           "case": ["ia reset", "ia new 0", "ia cp 1 0", "ia xapp 0 0", "ia xapp 0 1", "ia xapp 0 2", "ia xapp 0 3"]}]
+
+
+def oracle(case, impl, model, crash):
+    """judge a divergence on the implementation alone: replay the history on the python reference following the
+    implementation's own skip decisions (the growth policy is not part of the property)"""
+    if crash:
+        return True, "memory error / abnormal termination: %s" % crash
+    lines = [l for l in case]
+    out = [o for o in impl if o != "case"]
+    if len(out) < len(lines):
+        return True, "implementation stopped answering"
+    ref = None
+    for l, o in zip(lines, out):
+        t = l.split()
+        if t[1] == "reset":
+            ref = Ref(t[0][0])
+            continue
+        if ref is None:
+            return True, "history without reset"
+        ref.follow = o.startswith("skip")
+        try:
+            exp = ref.do(t[1:])
+        except Exception:
+            exp = None
+        if exp is None:
+            continue
+        if exp != o:
+            return True, "sequence semantics violated at `%s`: implementation `%s`, reference `%s`" % (l, o[:200], exp[:200])
+    return False, ("the implementation keeps the sequence semantics on this history but its capacity decisions differ from the "
+                   "model's growth policy (a skip of the documented shared-growth class happened at a different operation); "
+                   "the correspondence K no longer validates the model")
